@@ -24,6 +24,12 @@ open VncModel.Gen.C07
 
 abbrev DecFB := Bytes → Option (FB × Bytes)
 
+/-- value standing for "uninitialised C memory" (no pixel is that large): palette entries that
+were never written, the `fg` of hextile.c before its first assignment.  A framebuffer containing
+it is reported as unpredictable by the driver; valid streams never produce it. -/
+def poison : Pixel := 2 ^ 64
+
+
 /-! ## Raw (rfbclient.c, `case rfbEncodingRaw`) -/
 
 /-- `while (linesToRead && h > 0)`; fuel = `h` (every round handles at least one line) -/
@@ -104,11 +110,11 @@ def clientCoRRE (bpp : Nat) (fb : FB) (rx ry rw rh : Nat) : DecFB := fun bs =>
 
 /-! ## Hextile (hextile.c) -/
 
-/-- `bg` starts as 0, `fg` is uninitialised in C (modelled 0); both persist over the tiles of one
+/-- `bg` starts as 0, `fg` is uninitialised in C (modelled by `poison` = 2^64); both persist over the tiles of one
 rectangle; coloured sub-rectangles overwrite `fg` (the same C variable) -/
 structure HexSt where
   bg : Pixel := 0
-  fg : Pixel := 0
+  fg : Pixel := 2 ^ 64
 deriving Repr, DecidableEq, Inhabited
 
 def hexColoured (bpp x y : Nat) : Nat → FB → Pixel → Bytes → FB × Pixel
@@ -199,8 +205,8 @@ def unpackRowsC (bpp w : Nat) : Nat → Bytes → List Nat
     let (r, b) := unpackRowC bpp w (8 - bpp) buf
     r ++ unpackRowsC bpp w k b
 
-/-- palette lookup in the C array `palette[128]` (entries never written are modelled 0) -/
-def palGet (pal : Array Pixel) (i : Nat) : Pixel := pal.getD i 0
+/-- palette lookup in the C array `palette[128]` (entries never written are `poison`) -/
+def palGet (pal : Array Pixel) (i : Nat) : Pixel := pal.getD i poison
 
 /-- `palette[i] = UncompressCPixel(buffer)` for `i < n` -/
 def readPalette (cp : CPix) : Nat → Nat → Array Pixel → Bytes → Array Pixel × Bytes
@@ -267,7 +273,7 @@ def zrleTile (cp : CPix) (w h : Nat) : Bytes → Option (List Pixel × Bytes)
       let bpp := packBits t
       let div := 8 / bpp
       if 1 + t * cp.size + ((w + div - 1) / div) * h > L then none else               -- -5
-      let (pal, buf) := readPalette cp t 0 (Array.replicate zrlePaletteCells 0) buf
+      let (pal, buf) := readPalette cp t 0 (Array.replicate zrlePaletteCells poison) buf
       let idx := unpackRowsC bpp w h buf
       -- fixed code (fixes/C08-zrle-packed-palette-index.diff): an index that is not below the
       -- palette size is a decoding error (before the fix: read outside `palette[128]` for t > 16)
@@ -277,7 +283,7 @@ def zrleTile (cp : CPix) (w h : Nat) : Bytes → Option (List Pixel × Bytes)
     else if t = 129 then none                                                          -- -8
     else
       if 2 + (t - 128) * cp.size > L then none else                                    -- -9
-      let (pal, buf) := readPalette cp (t - 128) 0 (Array.replicate zrlePaletteCells 0) buf
+      let (pal, buf) := readPalette cp (t - 128) 0 (Array.replicate zrlePaletteCells poison) buf
       zrlePaletteRLE pal (w * h) (w * h) buf
 
 /-- the tile loop of `HandleZRLE` over the inflated data: a failing tile stops the loop and the
@@ -293,7 +299,7 @@ def zrleTiles (cp : CPix) (rx ry : Nat) : List TileRect → FB → Bytes → FB 
 
 structure TrleSt where
   lastType : Nat := 0
-  pal : Array Pixel := Array.replicate trlePaletteCells 0
+  pal : Array Pixel := Array.replicate trlePaletteCells poison
   bpp : Nat := 0
   color : Pixel := 0
 deriving Inhabited
